@@ -16,6 +16,7 @@ Stream clause
                    some yielded row has rho extending (R (+) sigma)     [or was suppressed as a duplicate]
 Precondition
   P  good_row(n, sigma) and ( NoOps(n, sigma)  or  (nid(n) in dom sigma and not cond_pos(n)) )
+  P2 cond_pos(n) == (n is n._conditions_root_ or isinstance(n._parent_, LogicalOperator))   (position recognisable)
 """
 from __future__ import annotations
 
@@ -26,7 +27,7 @@ import z3
 from eqlvc import z as Z
 from eqlvc.interp import (SV, ZV, C, D, Tup, Lst, Obj, Meth, Closure, Ref, NONE, TRUE, FALSE, State, Outcome,
                           OutOfSubset, NEXT, CONTINUE, BREAK, RETURN, RAISE, GENEXIT)
-from eqlvc.libmodel import LibModel, init_fields, isa, str_const, cond_root, parent_now
+from eqlvc.libmodel import LibModel, init_fields, isa, str_const, cond_root, parent_now, cond_pos_def
 
 LeafIds = z3.Const('LeafIds', Z.ArrIB)           # ids of Variable / Literal nodes
 MapRel = z3.Function('MapRel', Z.Node, Z.HV, Z.HV, Z.B)   # out is one of the values _apply_mapping_ yields for in
@@ -89,7 +90,8 @@ def child_shape(n, c):
             z3.Not(z3.Select(Z.SubIds(c), Z.nid(n))),
             z3.Map(Z.IMP_D, Z.SubIds(c), Z.SubIds(n)) == TRUE_IDS,
             Z.nid(c) != Z.nid(n), c != n, c != Z.NoneNode, n != Z.NoneNode, Z.node_of(Z.nid(n)) == n,
-            Z.node_of(Z.nid(c)) == c]
+            Z.node_of(Z.nid(c)) == c,
+            c != cond_root(c)]     # an operand of an operator / mapping is not the root of the conditions
 
 
 def tree_shape(a, b):
@@ -156,6 +158,9 @@ class EvalContract(LibModel):
                           Z.node_of(Z.nid(n)) == n)
                 # precondition P, with good_row unfolded at this class
                 st.assume(pre_I(n, sig))
+                st.assume(Z.cond_pos(n) == cond_pos_def(n, st.fields['eval_parent']))
+                st.assume(isa(str_const('LogicalOperator'), n) == z3.BoolVal(
+                    bool(self.cls and self.src.is_subclass(self.cls, 'LogicalOperator'))))
                 st.assume(Z.good_row(n, sig) == self.good(n, sig))
                 st.ghost['goodfacts'] = [(n, sig)] + [(c, sig) for c in self.children(n)]
                 # Den(self, .) unfolds by the class definition at every environment in play
@@ -388,6 +393,10 @@ class EvalContract(LibModel):
 
     def check_callee_pre(self, eng, st, c, sig, line, tag):
         eng.oblige(st, f"pre@call{tag}.L{line}", pre_I(c, sig), hyp=good_hyps(st, c, sig), line=line)
+        # P2: the callee can recognise its position (the caller made itself the evaluation parent)
+        eng.oblige(st, f"pre@call{tag}.L{line}/position", Z.cond_pos(c) == cond_pos_def(c, st.fields['eval_parent']),
+                   line=line)
+        st.assume(Z.cond_pos(c) == cond_pos_def(c, st.fields['eval_parent']))
         st.assume(pre_I(c, sig))
 
     def loop_stream(self, eng, st, target, body, stream, ordinal, node):
